@@ -144,26 +144,107 @@ def _transport(expr, source_txt):
         return ast.unparse(e), codings, others
 
 
-@rule('C12', 'R2b', 3, 'routes apply only their transport coding to the serialiser output')
+class _BytesIO:
+    _model = ('write', 'getvalue', 'tell', 'seek')
+
+    def __init__(self, initial=b''):
+        self.data = bytearray(initial)
+
+    def write(self, b):
+        self.data += b
+        return len(b)
+
+    def getvalue(self):
+        return bytes(self.data)
+
+    def tell(self):
+        return len(self.data)
+
+    def seek(self, pos, whence=0):
+        return pos
+
+
+SVG_TEXT = '<svg class="a b" id=\'i\' d="M0 0h1">caf\u00e9 100% &amp; #+?\n</svg>'      # a non-ASCII character, both quote styles, reserved characters
+PNG_MARK = bytes(range(256)) + b'\x89PNG'
+
+
+@rule('C12', 'R2b', 5, 'routes apply only their transport coding to the serialiser output: the data URI / inline text decodes to exactly the bytes the serialiser wrote')
 def r2b(fx):
-    for mod, q in (('writers', 'as_svg_data_uri'), ('writers', 'as_png_data_uri'), ('__init__', 'QRCode.svg_inline')):
-        fn = fx.fn(mod, q)
-        r = single([s for s in fn.body if isinstance(s, ast.Return)], f'return of {q}')
-        # the part of the returned value that derives from buff.getvalue()
-        gv = [c for c in ast.walk(r.value) if isinstance(c, ast.Call) and ast.unparse(c) == 'buff.getvalue()']
-        g = single(gv, f'buff.getvalue() in the return of {q}')
-        chain = []
-        n = g
-        while src.parent(n) is not None and src.parent(n) is not r:
-            p = src.parent(n)
-            if isinstance(p, ast.Call) and n in p.args:
-                chain.append(src.call_name(p) or ast.unparse(p.func))
-            elif isinstance(p, ast.Attribute) and isinstance(src.parent(p), ast.Call):
-                chain.append('.' + p.attr)
-            n = p
-        allowed = {'encode', 'quote', 'base64.b64encode', '.decode', '.getvalue'}
-        extra = [c for c in chain if c not in allowed]
-        yield ob(f'{q}: codings applied to the serialiser output', not extra, r, got=chain, want='transport codings only (base64 / percent-encoding / decode)')
+    from urllib.parse import unquote_to_bytes
+    import base64 as _b64
+    it = Interp(max_steps=5_000_000)
+    calls = []
+
+    def write_svg(matrix, matrix_size, out, **kw):
+        calls.append(('write_svg', kw))
+        out.write(SVG_TEXT.encode(kw.get('encoding') or 'utf-8'))
+
+    def write_png(matrix, matrix_size, out, **kw):
+        calls.append(('write_png', kw))
+        out.write(PNG_MARK)
+    io_ns = ev.Namespace('io', {'BytesIO': _BytesIO})
+    b64_ns = ev.Namespace('base64', {'b64encode': _b64.b64encode})
+    genv = callable_env(fx.forest, 'writers', it, {'write_svg': write_svg, 'write_png': write_png, 'io': io_ns, 'base64': b64_ns,
+                                                    'partial': __import__('functools').partial})
+    fn = fx.fn('writers', 'as_svg_data_uri')
+    f = FuncVal(fn, genv, it)
+    exact, modulo = [], []
+    for kw in ({}, {'encoding': 'latin-1'}, {'encode_minimal': True}, {'encode_minimal': True, 'encoding': 'latin-1', 'omit_charset': True}):
+        enc = kw.get('encoding', 'utf-8')
+        SVG_MARK = SVG_TEXT.encode(enc)
+        try:
+            uri = f('<m>', (21, 21), **kw)
+        except PyRaise as ex:
+            uri = f'raises {ex.name}'
+        head = 'data:image/svg+xml' + ('' if kw.get('omit_charset') else f';charset={enc}') + ','
+        if not isinstance(uri, str) or not uri.startswith(head):
+            exact.append(f'{kw}: header {str(uri)[:40]!r}')
+            modulo.append(f'{kw}: header {str(uri)[:40]!r}')
+            continue
+        payload = uri[len(head):]
+        if any(ord(ch) > 127 for ch in payload) or '#' in payload or '"' in payload or '\n' in payload or ('%' in payload.replace('%', '', 0) and
+                                                                                                      __import__('re').search(r'%(?![0-9A-Fa-f]{2})', payload)):
+            modulo.append(f'{kw}: a character that must be percent-encoded survives in {payload[:40]!r}')
+        raw = unquote_to_bytes(payload)
+        if raw != SVG_MARK:
+            exact.append(f'{kw}: decodes to {raw[:50]!r}')
+        if raw.replace(b"'", b'"') != SVG_MARK.replace(b"'", b'"'):
+            modulo.append(f'{kw}: decodes to {raw[:60]!r}')
+    yield ob('as_svg_data_uri: codings applied to the serialiser output', not exact, fn, got=exact[:2] or 'percent-decodes to the serialiser output',
+             want='percent-decodes to exactly the bytes the SVG serialiser wrote')
+    yield ob('as_svg_data_uri: percent-decodes to the serialiser output up to the quote style, in the declared charset; reserved characters encoded', not modulo, fn,
+             got=modulo[:2] or 'as required', want='as required')
+    fn = fx.fn('writers', 'as_png_data_uri')
+    uri = FuncVal(fn, genv, it)('<m>', (21, 21), scale=3)
+    head = 'data:image/png;base64,'
+    ok = isinstance(uri, str) and uri.startswith(head)
+    try:
+        raw = _b64.b64decode(uri[len(head):], validate=True) if ok else None
+    except Exception:
+        raw = None
+    yield ob('as_png_data_uri: base64 of exactly the bytes the PNG serialiser wrote', raw == PNG_MARK and calls[-1][1].get('scale') == 3, fn,
+             got='as required' if raw == PNG_MARK else str(uri)[:60], want='data:image/png;base64,<base64 of the output>')
+    # QRCode.svg_inline: the text of the SVG the serialiser wrote, decoded with the encoding it was written in
+    from ..interp import Instance
+    saves = []
+
+    def save(matrix, matrix_size, out, kind=None, **kw):
+        saves.append((kind, kw))
+        out.write(SVG_TEXT.encode(kw.get('encoding') or 'utf-8'))
+    genv2 = callable_env(fx.forest, '__init__', it, {'io': io_ns, 'writers': ev.Namespace('writers', {'save': save})})
+    init = fx.fn('__init__', 'QRCode.svg_inline')
+    for kw, enc in (({}, 'utf-8'), ({'encoding': 'latin-1', 'scale': 2}, 'latin-1')):
+        qr = Instance(fx.forest, '__init__', 'QRCode', genv2, it)
+        qr.matrix, qr._matrix_size = '<m>', (21, 21)
+        saves.clear()
+        try:
+            got = qr.svg_inline(**kw)
+        except PyRaise as ex:
+            got = f'raises {ex.name}'
+        want = SVG_TEXT
+        okk = len(saves) == 1 and saves[0][0] == 'svg' and saves[0][1] == dict(kw, xmldecl=False, svgns=False, nl=False)
+        yield ob(f'QRCode.svg_inline({kw}): the SVG text as written (no XML declaration, no namespace, no newline), decoded with {enc}', got == want and okk, init,
+                 got=(str(got)[:50], saves), want='the serialiser output decoded')
 
 
 def _parser_defaults(fx):
